@@ -311,12 +311,14 @@ def reuse(job, method):
             d1(np.array([1.25, -0.75]))
             d2(2.0)
             d1.n = 2
-            d1(0.5)
+            mid = d1(0.5)
             d1.n = 1
             again = d1(0.5)
             gen2 = nd.MinStepGenerator(base_step=0.25, step_ratio=2.0, num_steps=3, step_nom=1.0)
             fresh = nd.Derivative(f, step=gen2, n=1, order=2, method=method, full_output=True)(0.5)
-            return first, again, fresh
+            gen3 = nd.MinStepGenerator(base_step=0.25, step_ratio=2.0, num_steps=3, step_nom=1.0)
+            fresh_mid = nd.Derivative(f, step=gen3, n=2, order=2, method=method, full_output=True)(0.5)
+            return first, again, fresh, mid, fresh_mid
     ex = sn.Explorer(harness, assumptions=box, max_paths=600, timeout_ms=20000)
     paths = list(ex.paths())
     job.absorb_explorer(ex)
@@ -325,8 +327,9 @@ def reuse(job, method):
             import traceback as _tb
             job.violation('raises', dict(key='C09:reuse:raises:%s' % type(p.exc).__name__, kind='reuse', exc=''.join(_tb.format_exception(p.exc))[-1500:]))
             continue
-        first, again, fresh = p.result
-        for label, (va, ia), (vb, ib) in (('again == first', again, first), ('again == fresh', again, fresh)):
+        first, again, fresh, mid, fresh_mid = p.result
+        for label, (va, ia), (vb, ib) in (('again == first', again, first), ('again == fresh', again, fresh),
+                                           ('after n=2: reused == fresh', mid, fresh_mid)):
             for x, y, what in ((va, vb, 'value'), (ia.error_estimate, ib.error_estimate, 'error_estimate'), (ia.final_step, ib.final_step, 'final_step')):
                 xs, ys = cm.flat_list(x), cm.flat_list(y)
                 for u, w in zip(xs, ys):
@@ -387,7 +390,38 @@ def replay(cex):
                     return True, '%s reused after (x=%r, n=%d, order=%d) yields %r for (x=%r, %s, n=%d, order=%d); a fresh generator yields %r' % (
                         cls.__name__, xp, npv, opv, a[:3], x, method, n, o, b[:3])
         return False, 'reused generator == fresh generator on the probes'
-    if kind in ('setters', 'reuse'):
+    if kind == 'reuse':
+        method = cex['config']['m1']
+        rng = np.random.default_rng(8)
+        other = 'forward' if method != 'forward' else 'central'
+        for trial in range(6):
+            cs = rng.uniform(-1, 1, size=4)
+            f = cm.poly_fun(list(cs))
+            mk = lambda: nd.MinStepGenerator(base_step=0.25, step_ratio=2.0, num_steps=3, step_nom=1.0)  # noqa
+            try:
+                with cm.quiet():
+                    gen = mk()
+                    d1 = nd.Derivative(f, step=gen, n=1, order=2, method=method, full_output=True)
+                    d2 = nd.Derivative(f, step=gen, n=2, order=4, method=other, full_output=True)
+                    first = d1(0.5)
+                    d1(np.array([1.25, -0.75]))
+                    d2(2.0)
+                    d1.n = 2
+                    mid = d1(0.5)
+                    d1.n = 1
+                    again = d1(0.5)
+                    fresh = nd.Derivative(f, step=mk(), n=1, order=2, method=method, full_output=True)(0.5)
+                    fresh_mid = nd.Derivative(f, step=mk(), n=2, order=2, method=method, full_output=True)(0.5)
+            except Exception as e:  # noqa
+                return True, 'reuse sequence raises %s: %s' % (type(e).__name__, e)
+            for label, a, b in (('same call repeated after other uses', again, first), ('reused vs fresh object', again, fresh),
+                                ('after setting n=2: reused vs fresh object', mid, fresh_mid)):
+                if not (np.array_equal(a[0], b[0]) and np.array_equal(a[1].error_estimate, b[1].error_estimate)
+                        and np.array_equal(a[1].final_step, b[1].final_step)):
+                    return True, ('Derivative(method=%s): %s: value/error %r / %r versus %r / %r (polynomial coefficients %s)'
+                                  % (method, label, a[0], a[1].error_estimate, b[0], b[1].error_estimate, list(cs)))
+        return False, 'reused object == fresh object on random polynomials'
+    if kind in ('setters',):
         method = cex['config']['m1']
         f = lambda x: x ** 3 + 0.5 * x ** 2  # noqa
         for n_alt in range(0, 5):
